@@ -608,6 +608,47 @@ func getGitHead(repoDir string) string {
 	return head
 }
 
+// buildResultEvent validates a result attachment against graph and builds its
+// event. It captures file evidence but does not write to the log.
+func buildResultEvent(graph *Graph, repoDir, taskID, summary, relPath string) (Event, error) {
+	if _, ok := graph.Tombstones[taskID]; ok {
+		return Event{}, prunedErr(taskID)
+	}
+	task, ok := graph.Tasks[taskID]
+	if !ok {
+		return Event{}, fmt.Errorf("unknown task id %s", taskID)
+	}
+	if isEpic(task) {
+		return Event{}, errors.New("cannot attach result to epic")
+	}
+	if err := validateResultSummary(summary); err != nil {
+		return Event{}, err
+	}
+
+	// Validate and normalize path
+	cleanPath, err := validateResultPath(repoDir, relPath)
+	if err != nil {
+		return Event{}, err
+	}
+
+	// Capture evidence
+	evidence, err := captureResultEvidence(repoDir, cleanPath)
+	if err != nil {
+		return Event{}, err
+	}
+
+	now := time.Now().UTC()
+	return newEvent("result", now, ResultEvent{
+		TaskID:            taskID,
+		Summary:           strings.TrimSpace(summary),
+		Path:              cleanPath,
+		Sha256AtAttach:    evidence.Sha256AtAttach,
+		MtimeAtAttach:     evidence.MtimeAtAttach,
+		GitCommitAtAttach: evidence.GitCommitAtAttach,
+		TS:                formatTime(now),
+	})
+}
+
 // writeResultEvent attaches a result file reference to a task.
 // The file must exist and be within the project root.
 func writeResultEvent(dir string, opts GlobalOptions, taskID, summary, relPath string) error {
@@ -620,42 +661,7 @@ func writeResultEvent(dir string, opts GlobalOptions, taskID, summary, relPath s
 		if err != nil {
 			return err
 		}
-		if _, ok := graph.Tombstones[taskID]; ok {
-			return prunedErr(taskID)
-		}
-		task, ok := graph.Tasks[taskID]
-		if !ok {
-			return fmt.Errorf("unknown task id %s", taskID)
-		}
-		if isEpic(task) {
-			return errors.New("cannot attach result to epic")
-		}
-		if err := validateResultSummary(summary); err != nil {
-			return err
-		}
-
-		// Validate and normalize path
-		cleanPath, err := validateResultPath(repoDir, relPath)
-		if err != nil {
-			return err
-		}
-
-		// Capture evidence
-		evidence, err := captureResultEvidence(repoDir, cleanPath)
-		if err != nil {
-			return err
-		}
-
-		now := time.Now().UTC()
-		event, err := newEvent("result", now, ResultEvent{
-			TaskID:            taskID,
-			Summary:           strings.TrimSpace(summary),
-			Path:              cleanPath,
-			Sha256AtAttach:    evidence.Sha256AtAttach,
-			MtimeAtAttach:     evidence.MtimeAtAttach,
-			GitCommitAtAttach: evidence.GitCommitAtAttach,
-			TS:                formatTime(now),
-		})
+		event, err := buildResultEvent(graph, repoDir, taskID, summary, relPath)
 		if err != nil {
 			return err
 		}
